@@ -257,3 +257,38 @@ func VH_C16_normalized(init int, bodyRef bool, feeBytes int) {
 	zzvrt.Cover("reached", true)
 	zzvrt.ObserveInt("bits", c.BitSize())
 }
+
+// A message decoded OUT OF A MERKLE PROOF whose body has been pruned: the message cell then has
+// level 1 and its representation hash differs from its level-0 hash.  The identity hash captured by
+// Message.UnmarshalTLB equals the representation hash of that cell - without a hasher, with a cold
+// hasher, and with a hasher that has already hashed the whole proof (the cell is in its cache).
+func VH_C16_message_in_proof(kind int) {
+	spec := &vSpecBits{}
+	m, _ := vArbMessage(kind, 0, true, 8, spec)
+	c := boc.NewCell()
+	zzvrt.Assert("encode-ok", Marshal(c, m) == nil)
+	prover, err := boc.NewMerkleProver(c)
+	zzvrt.Assert("prover-ok", err == nil)
+	cur := prover.Cursor()
+	cur.Ref(0).Prune()
+	proof, err := prover.CreateProof(cur)
+	zzvrt.Assert("proof-ok", err == nil)
+	cells, err := boc.DeserializeBoc(proof)
+	zzvrt.Assert("proof-parses", err == nil && len(cells) == 1 && cells[0].RefsSize() == 1)
+	pm := cells[0].Refs()[0]
+	zzvrt.Assert("message-cell-has-level-1", pm.Level() == 1)
+	want, herr := pm.Hash256()
+	zzvrt.Assert("hash-ok", herr == nil)
+	var cold Message
+	zzvrt.Assert("decode-ok", Unmarshal(pm, &cold) == nil)
+	zzvrt.Assert("identity-hash-no-hasher", cold.Hash(false) == Bits256(want))
+	pm.ResetCounters()
+	dec := NewDecoder()
+	_, err = dec.hasher.Hash(cells[0]) // the whole proof was hashed before (e.g. to check it)
+	zzvrt.Assert("proof-hash-ok", err == nil)
+	var warm Message
+	zzvrt.Assert("decode-warm-ok", dec.Unmarshal(pm, &warm) == nil)
+	zzvrt.Assert("identity-hash-cached-hasher", warm.Hash(false) == Bits256(want))
+	zzvrt.Cover("reached", true)
+	zzvrt.ObserveInt("level", pm.Level())
+}
